@@ -916,7 +916,7 @@ func init() {
 		Explore: []string{"explore", "explore", "splitview"},
 		Sweeps: []core.Sweep{{Name: "small-forks", Entry: "forksweep", Enumerate: c13Enumerate,
 			Space: "tile heights 1..3 (quick 1..2) x log A sizes 1..9 (quick 1..6) x every common prefix length x log B 0..4 records beyond the prefix x which log is shown first x which record the second lookup asks for (newest, oldest, at the fork point, just before it) x {same client process after a view switch, new process on the same machine} x {security callback returns, security callback exits the process}"}},
-		Rule: "explore: seeded pair of logs with common prefix 0..n (sizes 1-40 and prefix+0..12), both signed by the log key; 1-3 clients sharing one config and cache, each shown either log at any size, views switching mid-run, answers from the other log, cache entries from the other log, config rollback/replacement/garbage, crash-restarts, tile heights 1-8. " +
+		Rule: "explore: seeded pair of logs with common prefix 0..n (sizes 1-40 and prefix+0..12), both signed by the log key; 1-3 clients sharing one config and cache, each shown either log at any size, views switching mid-run, answers from the other log, cache entries from the other log, config rollback/replacement/garbage, crash-restarts, tile heights 1-8; every third run is a split view: the goroutines of one client process are each shown a different log at the same time (per-connection equivocation). " +
 			"Distinct = digest of the seam event log and schedule; non-trivial = at least one lookup completed.",
 		Real:        []string{"sumdb.Client (mergeLatest, mergeLatestMem, checkTrees, checkRecord, tile reading)", "tlog", "note", "sumdb.Server.ServeHTTP over harness ServerOps"},
 		Stub:        []string{"two log universes and their signing (reference)", "ClientOps network/cache/config with equivocation and tampering", "scheduler, crash/restart"},
